@@ -16,7 +16,7 @@ import gen_dump  # noqa: E402
 CLASSES = {
     'C01': {'factor_to', 'factor_from', 'std_not_unit_magnitude', 'map_keys', 'map_size'},
     'C06': {'dims_symbol', 'qtype_dims', 'qtype_dims_numeric_types'},
-    'C07': {'incoherent', 'std_system_not_standard_unit', 'related_system', 'consistent_missing', 'consistent_public'},
+    'C07': {'incoherent', 'incoherent_implemented', 'std_system_not_standard_unit', 'related_system', 'consistent_missing', 'consistent_public'},
     'C08': {'abbr_table_size', 'std_not_enumerator', 'map_size', 'abbr_missing', 'abbr_dup', 'abbr_public', 'stream',
             'parse_back', 'map_keys', 'system_abbr_meaning', 'extra_key', 'spelling_target', 'spelling_parse',
             'spelling_meaning', 'nonspelling'},
